@@ -359,6 +359,206 @@ def analyse_refill(fn):
         "cover an empty stream, a length that is a multiple of the buffer size or an unreadable stream; the caller then reads stale buffer bytes"
 
 
+def window_counters(fn):
+    """Locals that count the bytes left in the window.  -> {id(leaf statement): set of local keys known to be <= m_end - m_p
+    when the statement starts}.  A local gets into the set by `w = m_end - m_p`, `w = 0`, `r = min(.., w)` / `min(.., m_end -
+    m_p)` or a copy of such a local; it stays there across read_to_buffer() (which changes the window only when it is empty,
+    and then only makes it larger) and across the pair `m_p += r; w -= r;` with r = min(.., w); every other move of the
+    cursor, every other decoder call and every other store to the local takes it out.  Loops are iterated to a fixpoint,
+    branches meet by intersection."""
+    out = {}
+    defsig = {}         # local -> text of the expression it was last defined as
+
+    def key_of(e):
+        u = unwrap_all_casts(e)
+        p = path(u) if isinstance(u, dict) else None
+        if p and len(p) == 1 and p[0].startswith("l:"):
+            return p[0]
+        return None
+
+    def is_window_expr(e):
+        u = unwrap_all_casts(e)
+        return isinstance(u, dict) and show(u).strip("()") == WINDOW
+
+    def bounded_expr(e, K, le, target=None):
+        """e <= window given K; records what e is bounded by in le[target]"""
+        u = unwrap_all_casts(e)
+        if not isinstance(u, dict):
+            return False
+        if is_window_expr(u) or const_value(u) == 0:
+            return True
+        k = key_of(u)
+        if k is not None and k in K:
+            if target:
+                le.setdefault(target, set()).add(k)
+                le[target] |= le.get(k, set())
+            return True
+        if u.get("k") == "Call" and callee_name(u) == "min":
+            hit = False
+            for a in u.get("args", []):
+                if is_window_expr(a):
+                    hit = True
+                ka = key_of(a)
+                if ka is not None and ka in K:
+                    hit = True
+                    if target:
+                        le.setdefault(target, set()).add(ka)
+            return hit
+        return False
+
+    def leaf(st, state):
+        K, le, pending = state
+        prev = out.get(id(st))
+        out[id(st)] = set(K) if prev is None else (prev & set(K))
+        K = set(K)
+        le = {k: set(v) for k, v in le.items()}
+        u = unwrap(st) if st.get("k") != "Decl" else st
+        # declarations and plain stores
+        stores = []
+        if st.get("k") == "Decl":
+            for v in st.get("vars", []):
+                if "n" in v and "id" in v:
+                    stores.append(("l:%s#%s" % (v["n"], v["id"]), v.get("init"), "="))
+        elif isinstance(u, dict) and u.get("k") == "Bin" and (u.get("op") or "").endswith("=") and u["op"] not in ("==", "!=", "<=", ">="):
+            kl = key_of(u.get("lhs"))
+            if kl is not None:
+                stores.append((kl, u.get("rhs"), u["op"]))
+            elif path(u.get("lhs")) == ("this", "m_p"):
+                if u["op"] == "+=":
+                    tmp = {}
+                    if bounded_expr(u.get("rhs"), K, tmp, "<amount>"):
+                        # the amount: a local, or an expression (`min(count, w)`) some local was defined as
+                        sig = show(unwrap_all_casts(u["rhs"]))
+                        le2 = {k_: set(v_) for k_, v_ in le.items()}
+                        le2["<amount>"] = tmp.get("<amount>", set()) | (le.get(key_of(u["rhs"]), set()) if key_of(u["rhs"]) else set())
+                        return (set(), le2, ((key_of(u["rhs"]), sig), frozenset(K)))
+                return (set(), {}, None)
+            elif path(u.get("lhs")) in (("this", "m_end"), ("this", "m_buffer")):
+                return (set(), {}, None)
+        # anything else that moves the cursor or calls into the decoder
+        for n in ir.walk(st):
+            if n.get("k") == "Lambda":
+                continue
+            if is_mp_move(n) and not (isinstance(u, dict) and u is n):
+                return (set(), {}, None)
+            if n.get("k") == "MCall" and (n.get("callee") or {}).get("cls") == DEC and not (n.get("callee") or {}).get("const") and \
+                    callee_name(n) != "read_to_buffer":
+                return (set(), {}, None)
+            if n.get("k") == "Un" and n.get("op") in ("pre++", "post++", "pre--", "post--", "&") and key_of(n.get("e")) in K:
+                K.discard(key_of(n.get("e")))
+        if isinstance(u, dict) and is_mp_move(u) and st.get("k") != "Decl":
+            return (set(), {}, None)
+        for kl, rhs, op in stores:
+            if op == "=":
+                le.pop(kl, None)
+                defsig[kl] = show(unwrap_all_casts(rhs)) if rhs is not None else None
+                if rhs is not None and bounded_expr(rhs, K, le, kl):
+                    K.add(kl)
+                else:
+                    K.discard(kl)
+            elif op == "-=" and pending is not None and kl in pending[1] and kl != pending[0][0] and kl in le.get("<amount>", set()) and \
+                    ((key_of(rhs) is not None and key_of(rhs) == pending[0][0]) or show(unwrap_all_casts(rhs)) == pending[0][1] or
+                     (key_of(rhs) is not None and defsig.get(key_of(rhs)) == pending[0][1])):
+                K.add(kl)           # w_old - r <= window_old - r = window_new   (r <= w_old: no wrap)
+            elif op == "-=" and kl in K and pending is None:
+                # w -= x with x <= w keeps w <= window; anything else may wrap
+                if not (key_of(rhs) is not None and kl in le.get(key_of(rhs), set())):
+                    K.discard(kl)
+            else:
+                K.discard(kl)
+        if pending is not None and not any(op == "-=" for _, _, op in stores):
+            # only stores that do not touch the window may stand between `m_p += r` and `w -= r`
+            touches = any(n.get("k") in ("MCall", "Call") and (n.get("callee") or {}).get("cls") == DEC for n in ir.walk(st))
+            if touches:
+                pending = None
+        elif pending is not None:
+            pending = pending if any(op == "-=" and kl not in K for kl, _, op in stores) else pending
+        return (K, le, pending)
+
+    def meet(states):
+        states = [s_ for s_ in states if s_ is not None]
+        if not states:
+            return None
+        K = set(states[0][0])
+        for s_ in states[1:]:
+            K &= s_[0]
+        le = {}
+        for k in K:
+            vals = [s_[1].get(k, set()) for s_ in states]
+            le[k] = set.intersection(*vals) if vals else set()
+        # relations of locals outside K are kept when every branch agrees
+        keys = set.intersection(*[set(s_[1]) for s_ in states]) if states else set()
+        for k in keys:
+            if k not in le:
+                le[k] = set.intersection(*[s_[1][k] for s_ in states])
+        pend = states[0][2] if all(s_[2] == states[0][2] for s_ in states) else None
+        return (K, le, pend)
+
+    def cond_effects(c, state):
+        if state is None or c is None:
+            return state
+        # conditions with calls into the decoder (peek_type() != BREAK) keep or clear like statements
+        K, le, pending = state
+        for n in ir.walk(c):
+            if n.get("k") == "MCall" and (n.get("callee") or {}).get("cls") == DEC and not (n.get("callee") or {}).get("const") and \
+                    callee_name(n) not in ("read_to_buffer", "peek_type"):
+                return (set(), {}, None)
+            if is_mp_move(n):
+                return (set(), {}, None)
+        return state
+
+    def stmt(s, state):
+        if s is None or state is None:
+            return state
+        k = s.get("k")
+        if k == "Block":
+            for x in s.get("s", []):
+                state = stmt(x, state)
+                if state is None:
+                    return None
+            return state
+        if k == "If":
+            st0 = cond_effects(s.get("cond"), state)
+            a = stmt(s.get("then"), (set(st0[0]), dict(st0[1]), st0[2]))
+            b = stmt(s.get("else"), (set(st0[0]), dict(st0[1]), st0[2])) if s.get("else") is not None else st0
+            return meet([a, b])
+        if k in ("While", "For", "Do", "RangeFor"):
+            if k == "For" and isinstance(s.get("init"), dict):
+                state = stmt(s["init"], state) if s["init"].get("k") == "Decl" else leaf(s["init"], state)
+            head = state
+            for _ in range(4):
+                h0 = cond_effects(s.get("cond"), head) if k != "Do" else head
+                body_out = stmt(s.get("body"), (set(h0[0]), {a: set(b) for a, b in h0[1].items()}, h0[2]))
+                if body_out is not None and k == "For" and isinstance(s.get("inc"), dict):
+                    body_out = leaf(s["inc"], body_out)
+                new_head = meet([state, body_out]) if body_out is not None else state
+                if new_head[0] == head[0] and new_head[2] == head[2]:
+                    head = new_head
+                    break
+                head = new_head
+            return cond_effects(s.get("cond"), head)
+        if k == "Switch":
+            st0 = cond_effects(s.get("cond"), state)
+            for x in ir.stmts(s.get("body")):
+                stmt(x, (set(), {}, None))
+            return (set(), {}, None)
+        if k in ("Case", "Default"):
+            return stmt(s.get("sub"), state)
+        if k == "Try":
+            b = stmt(s.get("body"), state)
+            for h in s.get("handlers", []):
+                stmt(h.get("body"), (set(), {}, None))
+            return b if b is not None else None
+        if k in ("Return", "Throw", "Break", "Continue"):
+            prev = out.get(id(s))
+            out[id(s)] = set(state[0]) if prev is None else (prev & state[0])
+            return None
+        return leaf(s, state)
+
+    stmt(fn["body"], (set(), {}, None))
+    return out
+
+
 def cursor_moves(fn):
     """Obligations for every write to m_p / m_end and every bulk read through m_p:
     [(node, ok (True/False/None), text)].
@@ -397,6 +597,7 @@ def cursor_moves(fn):
                     txt = show(unwrap_all_casts(v["init"]))
                     if key not in env.assigned and txt.strip("()") == WINDOW:
                         aliases[key] = order[id(n)]
+    counters = window_counters(fn)
     for st, g, loops in ir.guarded_statements_lc(fn["body"], env):
         if st.get("k") in ("IfCond", "LoopHead", "SwitchHead"):
             continue
@@ -439,6 +640,15 @@ def cursor_moves(fn):
             cv = const_value(nexpr)
             if is_window(nk):
                 return True      # the amount *is* the window size
+            # a local the window-counter analysis keeps below the window (or the minimum of something and such a local)
+            Khere = counters.get(id(st), set())
+            un = unwrap_all_casts(nexpr)
+            pn = path(un) if isinstance(un, dict) else None
+            if pn and len(pn) == 1 and pn[0] in Khere:
+                return True
+            if isinstance(un, dict) and un.get("k") == "Call" and callee_name(un) == "min" and \
+                    any(path(unwrap_all_casts(a)) and len(path(unwrap_all_casts(a))) == 1 and path(unwrap_all_casts(a))[0] in Khere for a in un.get("args", [])):
+                return True
             for a in atoms:
                 if a[0] == "cmp" and a[1] in ("<=", "<") and is_window(a[3]):
                     if a[2] == nk:
